@@ -106,6 +106,7 @@ func C05(ctx *core.Ctx, r *core.Report) {
 	c05MinMax(ctx, r)
 	c05BoundsExact(ctx, r)
 	c05ListElementsIndividually(ctx, r)
+	c05PatternsNotWidened(ctx, r)
 	postConstraintsAlwaysRun(ctx, r)
 	// the type check of written values is one of the registered constraints: it must survive
 	// every later registration and be inherited by every child set
